@@ -1,6 +1,7 @@
 (* C08 - facts about the tensor layer (Model/TensorFunctionals.v): the divide_by_n count. *)
-From Coq Require Import QArith.
-From MrVerif Require Import Base.Prelude Base.Tensor Model.Functionals Model.TensorFunctionals.
+From Coq Require Import Reals QArith Qabs Qminmax Qreals Lra Lia.
+From MrVerif Require Import Base.Prelude Base.Tensor Model.Functionals Model.TensorFunctionals
+  Proofs.FunctionalsProofs Proofs.FunctionalsTransfer.
 Local Open Scope Z_scope.
 
 Definition P (k : Z) (sx D : list Z) : Z := numel (mapi_from k (fun i s => if zmem i D then s else 1) sx).
@@ -68,3 +69,193 @@ Qed.
 (* every output of the reduction sums exactly nred elements: torch.mean divides by the number of reduced elements *)
 Lemma red_indices_length sx dims oflat : length (red_indices sx dims oflat) = Z.to_nat (nred sx dims).
 Proof. unfold red_indices, nred. rewrite map_length, zrange_length. reflexivity. Qed.
+
+
+(* ================================================================================================ *)
+(* coherence of the Gaussian-rational tensor layer with the real model                               *)
+(* ================================================================================================ *)
+(* ---- A: reduction ------------------------------------------------------------------------------------ *)
+Lemma Q2R_qsum_acc l acc : Q2R (fold_left (fun a b => Qred (a + b)) l acc) = (Q2R acc + sumR Q2R l)%R.
+Proof.
+  revert acc. induction l as [|q r IH]; intros acc; cbn [fold_left sumR]; [lra|].
+  rewrite IH, Q2R_red, Q2R_plus. lra.
+Qed.
+
+Lemma Q2R_qsum l : Q2R (qsum l) = sumR Q2R l.
+Proof. unfold qsum. rewrite Q2R_qsum_acc, Q2R_0'. lra. Qed.
+
+Lemma sumR_map {A B} (f : A -> B) (g : B -> R) l : sumR g (map f l) = sumR (fun a => g (f a)) l.
+Proof. induction l as [|a r IH]; cbn [map sumR]; [reflexivity|]. rewrite IH. reflexivity. Qed.
+
+Definition fwd_vals (e : espec) (xc : bool) (x : tens) : list Q :=
+  tbuild (fst x) (fun idx => elem_val (ek e) (ewc e) (xc || ebc e) (bget (fst x) (ew e) idx) (bget (fst x) (eb e) idx) (tget cq0 (fst x) (snd x) idx)).
+Definition fwd_n (e : espec) (x : tens) : Q :=
+  nfacQ (edivn e) (nred (fst x) (norm_dims (Z.of_nat (length (fst x))) (edim e))).
+
+(* the forward model is, output position by output position, the (exactly rounded) rational sum over the reduced index list
+   divided by n *)
+Lemma e_forward_data e xc x : ek e <> KZero ->
+  let dims := norm_dims (Z.of_nat (length (fst x))) (edim e) in
+  snd (e_forward e xc x)
+  = map (fun o => qre (Qred (qsum (map (znth 0%Q (fwd_vals e xc x)) (red_indices (fst x) dims o)) / fwd_n e x)))
+        (zrange (numel (kshape (fst x) dims))).
+Proof.
+  intros Hk dims. unfold e_forward, fwd_vals, fwd_n. fold dims.
+  destruct (ek e) eqn:E; try contradiction; cbn [snd]; unfold reduce_sum; rewrite map_map; reflexivity.
+Qed.
+
+Lemma reduce_coh (vals : list Q) (idxs : list Z) (n : Q) : ~ (n == 0)%Q ->
+  Q2R (Qred (qsum (map (znth 0%Q vals) idxs) / n)) = (sumR (fun i => Q2R (znth 0%Q vals i)) idxs / Q2R n)%R.
+Proof. intros Hn. rewrite Q2R_red, Q2R_div, Q2R_qsum, sumR_map by exact Hn. reflexivity. Qed.
+
+Lemma nfacQ_coh divn N : Q2R (nfacQ divn N) = if divn then IZR N else 1%R.
+Proof. destruct divn; cbn [nfacQ]; [|apply Q2R_1']. unfold Q2R, inject_Z; cbn. field. Qed.
+
+(* ---- C: pointwise access into a tensor built by tbuild ----------------------------------------------- *)
+Lemma znth_tbuild {A} (d : A) sx (f : list Z -> A) i : (0 <= i < numel sx)%Z -> znth d (tbuild sx f) i = f (unravel sx i).
+Proof.
+  intros Hi. unfold znth, tbuild, zrange. destruct (i <? 0)%Z eqn:E; [lia|].
+  rewrite map_map.
+  rewrite (nth_indep _ d (f (unravel sx (Z.of_nat 0)))) by (rewrite map_length, seq_length; lia).
+  rewrite (map_nth (fun k => f (unravel sx (Z.of_nat k))) (seq 0 (Z.to_nat (numel sx))) 0%nat).
+  rewrite seq_nth by lia. cbn [plus]. rewrite Z2Nat.id by lia. reflexivity.
+Qed.
+
+Local Open Scope Q_scope.
+(* ---- B: per-element functions on real data (imaginary parts 0) are the real scalar cores ---------------- *)
+Lemma Qeq_bool_0 q : q == 0 -> Qeq_bool q 0 = true.
+Proof. intros H. apply Qeq_bool_iff. exact H. Qed.
+
+Lemma cqabs_real (z : CQ) : snd z == 0 -> cqabs z == Qabs (fst z).
+Proof. intros H. unfold cqabs. rewrite (Qeq_bool_0 _ H). apply Qred_correct. Qed.
+
+(* real data stay real: the imaginary part of w * (x - b) is 0 *)
+Lemma cqmul_sub_real wq bq xq : snd (cqmul (wq, 0) (cqsub (xq, 0) (bq, 0))) == 0
+  /\ fst (cqmul (wq, 0) (cqsub (xq, 0) (bq, 0))) == wq * (xq - bq).
+Proof.
+  unfold cqmul, cqsub, cqred; cbn [fst snd]. rewrite !Qred_correct. split; ring.
+Qed.
+
+Lemma elem_val_real_l1 wc dc wq bq xq :
+  Q2R (elem_val KL1 wc dc (wq, 0) (bq, 0) (xq, 0)) = l1_val (Q2R wq) (Q2R bq) (Q2R xq).
+Proof.
+  unfold elem_val, l1_val. destruct (cqmul_sub_real wq bq xq) as [Hs Hf].
+  rewrite (Qeq_eqR _ _ (cqabs_real _ Hs)), Q2R_abs, (Qeq_eqR _ _ Hf), Q2R_mult, Q2R_minus. reflexivity.
+Qed.
+
+Lemma elem_val_real_l2 wc dc wq bq xq :
+  Q2R (elem_val KL2 wc dc (wq, 0) (bq, 0) (xq, 0)) = l2_val (Q2R wq) (Q2R bq) (Q2R xq).
+Proof.
+  unfold elem_val. destruct (cqmul_sub_real wq bq xq) as [Hs Hf]. cbv zeta.
+  unfold cqnorm2. rewrite Q2R_red, Q2R_plus, !Q2R_mult, (Qeq_eqR _ _ Hs), (Qeq_eqR _ _ Hf), Q2R_0', Q2R_mult, Q2R_minus.
+  rewrite l2_val_alt. unfold sq. ring.
+Qed.
+
+Lemma elem_val_real_l1r wq bq xq :
+  Q2R (elem_val KL1R false false (wq, 0) (bq, 0) (xq, 0)) = l1r_val_code false false (Q2R wq, 0%R) (Q2R bq, 0%R) (Q2R xq, 0%R).
+Proof.
+  unfold elem_val, l1r_val_code, cqsub, cqred, csub. cbn [fst snd].
+  rewrite Q2R_red, Q2R_abs, Q2R_mult, Q2R_red, Q2R_minus. reflexivity.
+Qed.
+
+Lemma elem_val_zero wc dc w b x : Q2R (elem_val KZero wc dc w b x) = zero_val 0.
+Proof. unfold elem_val, zero_val. apply Q2R_0'. Qed.
+
+Ltac q2r := repeat first [rewrite Q2R_red | rewrite Q2R_plus | rewrite Q2R_mult | rewrite Q2R_minus | rewrite Q2R_max
+                          | rewrite Q2R_min | rewrite Q2R_abs | rewrite Q2R_0' | rewrite Q2R_1' | rewrite Q2R_2 | rewrite Q2R_opp].
+
+(* prox of L1Norm on real data: real part = l1_prox, imaginary part = 0 *)
+Lemma cqsgn_real d : fst (cqsgn (d, 0)) == sgnQ d /\ snd (cqsgn (d, 0)) == 0.
+Proof.
+  unfold cqsgn. assert (Ha : cqabs (d, 0) == Qabs d) by (apply cqabs_real; reflexivity).
+  destruct (Qeq_bool (cqabs (d, 0)) 0) eqn:E.
+  - apply Qeq_bool_eq in E. rewrite Ha in E. cbn [fst snd cq0].
+    assert (d == 0).
+    { destruct (Qlt_le_dec d 0) as [H|H].
+      - rewrite Qabs_neg in E by (apply Qlt_le_weak; exact H). rewrite <- (Qopp_involutive d), E. reflexivity.
+      - rewrite Qabs_pos in E by exact H. exact E. }
+    split; [|reflexivity]. unfold sgnQ.
+    destruct (Qlt_le_dec 0 d) as [H1|H1]; [rewrite H in H1; discriminate|].
+    destruct (Qlt_le_dec d 0) as [H2|H2]; [rewrite H in H2; discriminate|reflexivity].
+  - apply Qeq_bool_neq in E. unfold cqred; cbn [fst snd]. rewrite !Qred_correct. split.
+    + rewrite Ha. unfold sgnQ. destruct (Qlt_le_dec 0 d) as [H1|H1].
+      * rewrite Qabs_pos by (apply Qlt_le_weak; exact H1). field. intros H0. rewrite H0 in H1. discriminate.
+      * destruct (Qlt_le_dec d 0) as [H2|H2].
+        -- rewrite Qabs_neg by (apply Qlt_le_weak; exact H2). field. intros H0. rewrite H0 in H2. discriminate.
+        -- exfalso. apply E. rewrite Ha. assert (d == 0) by (apply Qle_antisym; assumption). rewrite H. reflexivity.
+    + unfold Qdiv. ring.
+Qed.
+
+Lemma elem_prox_real_l1 wc n wq bq sigma xq : ~ n == 0 ->
+  Q2R (fst (elem_prox KL1 wc n (wq, 0) (bq, 0) sigma (xq, 0))) = l1_prox (Q2R n) (Q2R wq) (Q2R bq) (Q2R sigma) (Q2R xq)
+  /\ snd (elem_prox KL1 wc n (wq, 0) (bq, 0) sigma (xq, 0)) == 0.
+Proof.
+  intros Hn. unfold elem_prox. cbv zeta.
+  set (d := cqsub (xq, 0) (bq, 0)).
+  assert (Hd : d = (Qred (xq - bq), 0)) by reflexivity.
+  set (thr := cqabs (cqscale (/ n) (cqscale sigma (wq, 0)))).
+  assert (Ht : thr == Qabs (wq * sigma / n)).
+  { unfold thr. rewrite cqabs_real.
+    - unfold cqscale, cqred; cbn [fst snd]. rewrite !Qred_correct. apply Qabs_wd. field. exact Hn.
+    - unfold cqscale, cqred; cbn [fst snd]. rewrite !Qred_correct. ring. }
+  rewrite Hd. destruct (cqsgn_real (Qred (xq - bq))) as [Hs1 Hs2].
+  assert (Ha : cqabs (Qred (xq - bq), 0) == Qabs (xq - bq)).
+  { rewrite cqabs_real by reflexivity. cbn [fst]. apply Qabs_wd, Qred_correct. }
+  unfold cqadd, cqscale, cqred; cbn [fst snd]. split.
+  - unfold reluQ. q2r.
+    rewrite (Qeq_eqR _ _ Hs1), (Qeq_eqR _ _ Ha), (Qeq_eqR _ _ Ht), Q2R_sgn. q2r. rewrite Q2R_div by exact Hn. q2r.
+    unfold l1_prox, softR, reluR. ring.
+  - rewrite !Qred_correct, Hs2. ring.
+Qed.
+
+Lemma elem_prox_real_l2_Q wc n wq bq sigma xq : 0 < n -> 0 <= sigma ->
+  fst (elem_prox KL2 wc n (wq, 0) (bq, 0) sigma (xq, 0)) == (xq + (wq * wq * 2 * sigma / n) * bq) / (1 + wq * wq * 2 * sigma / n)
+  /\ snd (elem_prox KL2 wc n (wq, 0) (bq, 0) sigma (xq, 0)) == 0.
+Proof.
+  intros Hn Hs.
+  assert (Hn0 : ~ n == 0) by (intros E; rewrite E in Hn; discriminate).
+  assert (Hc : 0 <= wq * wq * 2 * sigma / n).
+  { apply Qle_shift_div_l; [exact Hn|]. rewrite Qmult_0_l.
+    apply Qmult_le_0_compat; [|exact Hs]. apply Qmult_le_0_compat; [|discriminate].
+    unfold Qle, Qmult; cbn; nia. }
+  assert (Hd : ~ 1 + wq * wq * 2 * sigma / n == 0).
+  { intros E. assert (0 < 1 + wq * wq * 2 * sigma / n).
+    { apply Qlt_le_trans with (1 + 0); [reflexivity|]. apply Qplus_le_r. exact Hc. }
+    rewrite E in H. discriminate. }
+  assert (Hpos : 0 < n + wq * wq * 2 * sigma).
+  { apply Qlt_le_trans with (n + 0); [rewrite Qplus_0_r; exact Hn|]. apply Qplus_le_r.
+    apply Qmult_le_0_compat; [|exact Hs]. apply Qmult_le_0_compat; [|discriminate]. unfold Qle, Qmult; cbn; nia. }
+  Ltac nz Hpos n wq sigma := match goal with |- ~ ?e == 0 => let E := fresh in let H0 := fresh in intros E;
+    assert (H0 : 0 < e) by (apply Qlt_le_trans with (n + wq * wq * 2 * sigma); [exact Hpos | apply Qle_lteq; right; ring]);
+    apply (Qlt_irrefl 0); apply Qlt_le_trans with e; [exact H0 | apply Qle_lteq; right; exact E] end.
+  unfold elem_prox, cqdiv, cqscale, cqmul, cqadd, cqconj, cqnorm2, cqred, qre; cbn [fst snd].
+  rewrite !Qred_correct. split.
+  - field. repeat split; try exact Hn0; nz Hpos n wq sigma.
+  - field. repeat split; try exact Hn0; nz Hpos n wq sigma.
+Qed.
+
+Lemma elem_prox_real_l2 wc n wq bq sigma xq : 0 < n -> 0 <= sigma ->
+  Q2R (fst (elem_prox KL2 wc n (wq, 0) (bq, 0) sigma (xq, 0))) = l2_prox (Q2R n) (Q2R wq) (Q2R bq) (Q2R sigma) (Q2R xq)
+  /\ snd (elem_prox KL2 wc n (wq, 0) (bq, 0) sigma (xq, 0)) == 0.
+Proof.
+  intros Hn Hs. destruct (elem_prox_real_l2_Q wc n wq bq sigma xq Hn Hs) as [H1 H2]. split; [|exact H2].
+  rewrite (Qeq_eqR _ _ H1). destruct (l2Q_coh n wq bq sigma xq Hn Hs) as [_ [Hp _]].
+  rewrite <- Hp. unfold l2_proxQ. cbv zeta. rewrite Q2R_red. reflexivity.
+Qed.
+
+
+(* prox / prox_convex_conj act pointwise on the broadcast operands *)
+Lemma e_pointwise_spec f e x sg t i : e_pointwise f e x sg = Some t -> (0 <= i < numel (fst x))%Z ->
+  fst t = fst x /\
+  znth cq0 (snd t) i = f (ek e) (ewc e) (nfacQ (edivn e) (nprox (fst x) (edim e)))
+                         (bget (fst x) (ew e) (unravel (fst x) i)) (bget (fst x) (eb e) (unravel (fst x) i))
+                         (fst (bget (fst x) sg (unravel (fst x) i))) (tget cq0 (fst x) (snd x) (unravel (fst x) i)).
+Proof.
+  intros H Hi. unfold e_pointwise in H. destruct (sigma_ok sg); [|discriminate]. inversion H; subst; clear H. cbn [fst snd].
+  split; [reflexivity|]. rewrite znth_tbuild by exact Hi. reflexivity.
+Qed.
+
+Lemma fwd_vals_spec e xc x i : (0 <= i < numel (fst x))%Z ->
+  znth 0 (fwd_vals e xc x) i = elem_val (ek e) (ewc e) (xc || ebc e) (bget (fst x) (ew e) (unravel (fst x) i))
+                                 (bget (fst x) (eb e) (unravel (fst x) i)) (tget cq0 (fst x) (snd x) (unravel (fst x) i)).
+Proof. intros Hi. unfold fwd_vals. rewrite znth_tbuild by exact Hi. reflexivity. Qed.
